@@ -1,3 +1,119 @@
-From Coq Require Import List.
-Theorem C09_placeholder : True. Proof. exact I. Qed.
-Print Assumptions C09_placeholder.
+(* C09 — operators refuse invalid inputs and results keep the promised structure
+   Property theorems only: each is closed by `exact <lemma>`; proofs live in the imported files. *)
+From Coq Require Import List ZArith QArith Qcanon Ring_theory Field_theory Permutation Sorted.
+Import ListNotations.
+From CK Require Import Base.
+From CK Require Import Scalar.
+From CK Require Import Tensor.
+From CK Require Import Pexpr.
+From CK Require Import Exec.
+From CK Require Import Ops.
+From CK Require Import Struct.
+From CK Require Import OpsProps.
+Close Scope Qc_scope. Close Scope Q_scope. Close Scope Z_scope. Open Scope nat_scope.
+
+(* integrate refuses (structural-property error) every circuit that is not smooth and decomposable *)
+Theorem C09_integrate_refuses_struct :
+  forall (Z : list nat) (c : circuit),
+         is_smooth c && is_decomposable c = false -> integrate_m Z c = Err EStruct.
+Proof. exact integrate_refuses_struct. Qed.
+Print Assumptions C09_integrate_refuses_struct.
+
+(* ... refuses an empty scope *)
+Theorem C09_integrate_refuses_empty :
+  forall c : circuit, is_smooth c && is_decomposable c = true -> integrate_m [] c = Err EValue.
+Proof. exact integrate_refuses_empty. Qed.
+Print Assumptions C09_integrate_refuses_empty.
+
+(* ... and variables outside the circuit scope *)
+Theorem C09_integrate_refuses_outside :
+  forall (Z : list nat) (c : circuit),
+         is_smooth c && is_decomposable c = true ->
+         Z <> [] -> ssubset Z (cscope c) = false -> integrate_m Z c = Err EValue.
+Proof. exact integrate_refuses_outside. Qed.
+Print Assumptions C09_integrate_refuses_outside.
+
+(* differentiate refuses circuits that are not smooth and decomposable *)
+Theorem C09_differentiate_refuses_struct :
+  forall (k : nat) (c : circuit),
+         is_smooth c && is_decomposable c = false -> differentiate_m k c = Err EStruct.
+Proof. exact differentiate_refuses_struct. Qed.
+Print Assumptions C09_differentiate_refuses_struct.
+
+(* ... and a non-positive order *)
+Theorem C09_differentiate_refuses_order :
+  forall c : circuit, is_smooth c && is_decomposable c = true -> differentiate_m 0 c = Err EValue.
+Proof. exact differentiate_refuses_order. Qed.
+Print Assumptions C09_differentiate_refuses_order.
+
+(* multiply refuses every pair that is not compatible *)
+Theorem C09_multiply_refuses_incompatible :
+  forall a b : circuit,
+         seqb (cscope a) (cscope b) = true -> compatible a b = false -> multiply_m a b = Err EStruct.
+Proof. exact multiply_refuses_incompatible. Qed.
+Print Assumptions C09_multiply_refuses_incompatible.
+
+(* ... and operands over different scopes *)
+Theorem C09_multiply_refuses_scope :
+  forall a b : circuit, seqb (cscope a) (cscope b) = false -> multiply_m a b = Err ENotImpl.
+Proof. exact multiply_refuses_scope. Qed.
+Print Assumptions C09_multiply_refuses_scope.
+
+(* evidence refuses an empty observation *)
+Theorem C09_evidence_refuses_empty :
+  forall c : circuit, evidence_m [] c = Err EValue.
+Proof. exact evidence_refuses_empty. Qed.
+Print Assumptions C09_evidence_refuses_empty.
+
+(* ... and variables outside the scope *)
+Theorem C09_evidence_refuses_outside :
+  forall (obs : list (nat * C)) (c : circuit),
+         canon (map fst obs) <> [] ->
+         ssubset (canon (map fst obs)) (cscope c) = false -> evidence_m obs c = Err EValue.
+Proof. exact evidence_refuses_outside. Qed.
+Print Assumptions C09_evidence_refuses_outside.
+
+(* whenever integrate returns, the result is smooth and decomposable, every scope is the original minus Z, outputs and layer count are unchanged *)
+Theorem C09_integrate_result :
+  forall (Z : list nat) (c c' : circuit),
+         integrate_m Z c = Ok c' ->
+         scopes c' = map (fun s : list nat => sdiff s Z) (scopes c) /\
+         is_smooth c' = true /\
+         is_decomposable c' = true /\
+         cscope c' = sdiff (cscope c) Z /\ outs c' = outs c /\ length (nodes c') = length (nodes c).
+Proof. exact integrate_structure. Qed.
+Print Assumptions C09_integrate_result.
+
+(* whenever evidence returns, scopes are the originals minus the observed variables and smoothness / decomposability are preserved *)
+Theorem C09_evidence_result :
+  forall (obs : asg) (c c' : circuit),
+         evidence_m obs c = Ok c' ->
+         scopes c' = map (fun s : list nat => sdiff s (canon (map fst obs))) (scopes c) /\
+         (is_smooth c = true -> is_smooth c' = true) /\
+         (is_decomposable c = true -> is_decomposable c' = true) /\
+         cscope c' = sdiff (cscope c) (canon (map fst obs)) /\
+         outs c' = outs c /\ length (nodes c') = length (nodes c).
+Proof. exact evidence_structure. Qed.
+Print Assumptions C09_evidence_result.
+
+(* conjugation preserves scopes and all structural flags *)
+Theorem C09_conjugate_result :
+  forall c c' : circuit,
+         conjugate_m c = Ok c' ->
+         scopes c' = scopes c /\
+         is_smooth c' = is_smooth c /\
+         is_decomposable c' = is_decomposable c /\ is_sd c' = is_sd c /\ outs c' = outs c.
+Proof. exact conjugate_structure. Qed.
+Print Assumptions C09_conjugate_result.
+
+(* ... including compatibility with any other circuit *)
+Theorem C09_conjugate_result_compat :
+  forall c c' : circuit,
+         conjugate_m c = Ok c' ->
+         cscope c' = cscope c /\
+         factorizations c' = factorizations c /\
+         length (nodes c') = length (nodes c) /\
+         (forall b : circuit, compatible c' b = compatible c b) /\
+         (forall b : circuit, compatible b c' = compatible b c).
+Proof. exact conjugate_structure_more. Qed.
+Print Assumptions C09_conjugate_result_compat.
